@@ -645,7 +645,201 @@ func c16Loops(p *Prog, r *Report) {
 		}
 		r.check(len(loopBad) == 0, "C16.reconnect-loop", l.name, p.Pos(l.fn.Pos()), fmt.Sprintf("%d successful / %d failed reconnect iterations explored", res.resets["ok"], res.resets["fail"]), strings.Join(loopBad, " || "))
 		r.check(len(flagBad) == 0, "C16.timer-flag", l.name, p.Pos(l.fn.Pos()), "", strings.Join(flagBad, " || "))
+		c16LoopExit(p, r, l.name, l.fn)
 	}
+}
+
+// c16LoopExit: a maintenance loop heals its connection for as long as the proxy runs.  The only
+// thing that ends it is its context: the exit flag is set only in the select arm that received from
+// ctx.Done(), and the loop has no other way out.
+func c16LoopExit(p *Prog, r *Report, name string, fn *ssa.Function) {
+	const rule = "C16.loop-exit"
+	r.Rule(rule, "the reconnect loops of a pool slot and of the control connection end only when their context is done: the flag that ends the loop is set, and the loop is left, only in the select arm that received from ctx.Done() (a loop that gives up after a failed attempt leaves its slot, or the control connection, unhealed for good)")
+	fns := append([]*ssa.Function{fn}, keeperFuncs(p, fn, keeperType(p, fn))...)
+	for _, h := range privateHelpersOf(p, fn) {
+		dup := false
+		for _, f := range fns {
+			if f == h {
+				dup = true
+			}
+		}
+		if !dup {
+			fns = append(fns, h)
+		}
+	}
+	inDoneArm := func(b *ssa.BasicBlock) bool {
+		for _, ct := range dominatingConds(b) {
+			bo, ok := ct.Cond.(*ssa.BinOp)
+			if !ok || bo.Op != token.EQL || !ct.Truth {
+				continue
+			}
+			ex, ok := bo.X.(*ssa.Extract)
+			if !ok || ex.Index != 0 {
+				continue
+			}
+			sel, ok := ex.Tuple.(*ssa.Select)
+			if !ok {
+				continue
+			}
+			k, isK := constInt(bo.Y)
+			if !isK || int(k) >= len(sel.States) {
+				continue
+			}
+			for _, o := range origins(sel.States[k].Chan) {
+				if c, ok := o.(*ssa.Call); ok && c.Call.IsInvoke() && c.Call.Method.Name() == "Done" {
+					return true
+				}
+			}
+		}
+		return false
+	}
+	// (an arm may live in a small helper that is only called from the ctx.Done() arm)
+	inArm := inDoneArm
+	var inDoneArmInter func(b *ssa.BasicBlock, depth int) bool
+	inDoneArmInter = func(b *ssa.BasicBlock, depth int) bool {
+		if inArm(b) {
+			return true
+		}
+		if depth <= 0 {
+			return false
+		}
+		sites, only := p.staticCallSites(b.Parent())
+		if !only || len(sites) == 0 {
+			return false
+		}
+		for _, cs := range sites {
+			if !inDoneArmInter(cs.Block(), depth-1) {
+				return false
+			}
+		}
+		return true
+	}
+	inDoneArm = func(b *ssa.BasicBlock) bool { return inDoneArmInter(b, 2) }
+	// the exit flag: the boolean the loop condition tests (a local, or a field of the loop-state struct)
+	var bad []string
+	n := 0
+	// a loop without a flag is left by returning: every return inside the loop body belongs to the
+	// ctx.Done() arm
+	eachInstr(fn, func(in ssa.Instruction) {
+		ret, ok := in.(*ssa.Return)
+		if !ok {
+			return
+		}
+		// reached from inside the loop: the block is in the loop, or is dominated by its header
+		// without the loop condition having ended it
+		inside := loopDepthOf(ret.Block()) > 0
+		for _, h := range fn.Blocks {
+			if isLoopHeader(h) && h != ret.Block() && h.Dominates(ret.Block()) {
+				// a `for cond` loop's normal exit leaves through the header's own false edge
+				viaHeaderExit := false
+				if _, isIf := lastIf(h); isIf && len(h.Succs) == 2 {
+					for _, sc := range h.Succs {
+						if loopDepthOf(sc) == 0 && (sc == ret.Block() || sc.Dominates(ret.Block())) {
+							viaHeaderExit = true
+						}
+					}
+				}
+				if !viaHeaderExit {
+					inside = true
+				}
+			}
+		}
+		if !inside {
+			return
+		}
+		n++
+		if !inDoneArm(ret.Block()) {
+			bad = append(bad, fmt.Sprintf("%s: %s leaves its loop on a path that did not receive from ctx.Done()", p.Pos(ret.Pos()), fn.Name()))
+		}
+	})
+	// the value the loop condition tests, followed to the places that make it true
+	seen := map[ssa.Value]bool{}
+	var walk func(v ssa.Value, from *ssa.BasicBlock, depth int)
+	walk = func(v ssa.Value, from *ssa.BasicBlock, depth int) {
+		if depth > 8 || v == nil {
+			return
+		}
+		switch y := v.(type) {
+		case *ssa.Const:
+			if y.Value != nil && y.Value.Kind() == constant.Bool && constant.BoolVal(y.Value) {
+				n++
+				if !inDoneArm(from) {
+					pos := "?"
+					if len(from.Instrs) > 0 {
+						pos = p.Pos(from.Instrs[len(from.Instrs)-1].Pos())
+					}
+					bad = append(bad, fmt.Sprintf("%s: the loop is ended by %s on a path that did not receive from ctx.Done()", pos, from.Parent().Name()))
+				}
+			}
+		case *ssa.Phi:
+			if seen[y] {
+				return
+			}
+			seen[y] = true
+			for i, e := range y.Edges {
+				walk(e, y.Block().Preds[i], depth+1)
+			}
+		case *ssa.Call:
+			// an iteration (or an arm) lives in a function that reports whether the loop is done
+			callee := y.Call.StaticCallee()
+			if callee == nil || callee.Blocks == nil || !p.InRepo(callee) || seen[y] {
+				return
+			}
+			seen[y] = true
+			eachInstr(callee, func(i2 ssa.Instruction) {
+				if ret, ok := i2.(*ssa.Return); ok && len(ret.Results) == 1 {
+					walk(ret.Results[0], ret.Block(), depth+1)
+				}
+			})
+		case *ssa.UnOp:
+			// a named result or local spilled to a cell: the values stored into it
+			if y.Op == token.NOT {
+				return
+			}
+			if al, ok := y.X.(*ssa.Alloc); ok && y.Op == token.MUL {
+				for _, ref := range *al.Referrers() {
+					if st, ok := ref.(*ssa.Store); ok && st.Addr == ssa.Value(al) {
+						walk(st.Val, st.Block(), depth+1)
+					}
+				}
+			}
+		}
+	}
+	for _, f := range fns {
+		for _, h := range f.Blocks {
+			if !isLoopHeader(h) {
+				continue
+			}
+			iff, ok := lastIf(h)
+			if !ok {
+				continue
+			}
+			c, _ := stripNot(iff.Cond)
+			walk(c, h, 0)
+		}
+		eachInstr(f, func(in ssa.Instruction) {
+			switch x := in.(type) {
+			case *ssa.Store:
+				// loop state in a struct: `loop.done = true`
+				fa, ok := x.Addr.(*ssa.FieldAddr)
+				if !ok {
+					return
+				}
+				k, isK := x.Val.(*ssa.Const)
+				if !isK || k.Value == nil || k.Value.Kind() != constant.Bool || !constant.BoolVal(k.Value) {
+					return
+				}
+				if !strings.Contains(strings.ToLower(fieldOfAddr(fa).Name()), "done") {
+					return
+				}
+				n++
+				if !inDoneArm(x.Block()) {
+					bad = append(bad, fmt.Sprintf("%s: %s ends the loop on a path that did not receive from ctx.Done()", p.Pos(x.Pos()), f.Name()))
+				}
+			}
+		})
+	}
+	r.check(len(bad) == 0 && n > 0, rule, name, p.Pos(fn.Pos()), fmt.Sprintf("%d assignment(s) that end the loop, all in the ctx.Done() arm", n), strings.Join(dedupe(bad), " || "))
 }
 
 func c16Refresh(p *Prog, r *Report) {
